@@ -98,15 +98,17 @@ CLAIMED = {
             'Theorem for every table of valid symbols; representation independence is structural in the model and decided by '
             'the oracle comparing all queries across the three representations.',
             'Aliases with parentheses / non-text aliases are outside this property.', 'DESIGN.md section 4 C14'),
-    'C05': ('Coq proof: over a table none of whose names has an operator word or parenthesis, the default rendering (plain or readable) '
-            'of every well-formed expression with renderable licenses is tokenized and parsed back to the expression itself by the model '
-            'of the whole pipeline (render_parse_roundtrip); the token sequence of the rendering parses back whatever strings / positions '
-            'it carries; the rendered string is the concatenation of fixed operator / parenthesis texts and the template applied to each '
-            'license; producer results (parse, simplify, dedup, combine_expressions) rendered and re-parsed on the implementation',
-            'Theorems for every well-formed expression tree, every operator-word-free table and every template (render_parse_roundtrip, '
-            'render_tokens_roundtrip, bparse_kinds, kinds_to_or, render_is_items, resplit, render_words). The premise that the licenses of '
-            'the expression are renderable (known licenses stored under their own key, no stored name inside an unknown key) is '
-            'instantiated in C05_example and decided for results of parse on the implementation by the oracle.',
+    'C05': ('Coq proof: over a table without operator words whose licenses are renderable, whatever text parses to e, the default '
+            'rendering of e (plain or readable) is tokenized and parsed back to e itself by the model of the whole pipeline '
+            '(parse_render_parse), likewise every well-formed expression made of the licenses of e (simplify / dedup / combine results); '
+            'the token sequence of the rendering parses back whatever strings / positions it carries; the rendered string is the '
+            'concatenation of fixed operator / parenthesis texts and the template applied to each license; producer results rendered '
+            'and re-parsed on the implementation, also over wrapped user objects',
+            'Theorems for every text, every well-formed expression tree, every table without operator words and every template '
+            '(parse_render_parse, derived_render_parse, render_parse_roundtrip, parse_renderable, bparse_wf, render_tokens_roundtrip, '
+            'bparse_kinds, kinds_to_or, render_is_items, resplit, render_words). The premise on the table (each license stored under the '
+            'words of its own parenthesis-free key as itself) is instantiated in the examples and decided for generated tables on the '
+            'implementation by the oracle.',
             'Four finite oracle facts about white space and lower-casing of the operator letters are premises (checked on the interpreter).',
             'DESIGN.md section 4 C05'),
     'C19': ('Coq proof (invariant over operation sequences: answers of any history equal those of the system that never caches a '
